@@ -155,6 +155,10 @@ func kWriter(args []string) (string, string) {
 		wopts = append(wopts, gowarc.WithWarcInfoFunc(func(rb gowarc.WarcRecordBuilder) error {
 			rb.AddWarcHeader("WARC-Record-ID", fmt.Sprintf("<urn:uuid:99%06d-0000-4000-8000-000000000000>", len(ng.names)))
 			_, _ = rb.Write([]byte("software: verif\r\n"))
+			if n, _ := strconv.Atoi(cfg["infosz"]); n > 0 {
+				// a generator that adds a lot of (compressible) content
+				_, _ = rb.Write([]byte("description: " + strings.Repeat("all work and no play ", n/21+1)[:n] + "\r\n"))
+			}
 			return nil
 		}))
 	}
@@ -700,7 +704,12 @@ func genWriter(r *rng, n int, tier string, emit func(string, ...string)) {
 		}
 		ratios := [][2]int{{1, 2}, {1, 1}, {1, 4}, {2, 1}, {3, 4}}
 		rt := pick(r, ratios)
-		cfg := fmt.Sprintf("max=%d;comp=%s;info=%s;rnum=%d;rden=%d;flush=%s;conc=%s", max, tf(comp), tf(info), rt[0], rt[1], tf(r.chance(1, 4)), tf(r.chance(1, 5)))
+		infosz := 0
+		if info && r.chance(1, 3) {
+			infosz = pick(r, []int{200, 1500, 6000, 20000})
+		}
+		cfg := fmt.Sprintf("max=%d;comp=%s;info=%s;rnum=%d;rden=%d;flush=%s;conc=%s;infosz=%d", max, tf(comp), tf(info), rt[0], rt[1], tf(r.chance(1, 4)), tf(r.chance(1, 5)), infosz)
+		stat("writer-infosz", strconv.Itoa(infosz))
 		stat("writer-cfg", fmt.Sprintf("comp=%s,info=%s,max=%s", tf(comp), tf(info), map[bool]string{true: "0", false: "pos"}[max == 0]))
 		nops := r.rangeInt(1, 12)
 		var ops []string
